@@ -75,9 +75,11 @@ def run(report, p):
                 handle = _handle_name(call)
                 closes = [g.node_for(c3) for c3, _ in p.calls[fq] if isinstance(c3.func, ast.Attribute) and c3.func.attr == "close" and norm(c3.func.value) == handle]
                 in_with = isinstance(parent(call), ast.withitem)
+                with_stmt = parent(parent(call)) if in_with else None
                 for rn in reps:
-                    ok_close = in_with or any(g.dominates(cn, rn) for cn in closes)
-                    r1.check(ok_close, f, rn.ast, "os.replace publishes the file before it is closed", construct="replace before close")
+                    inside_with = with_stmt is not None and _inside(rn.ast, with_stmt)
+                    ok_close = (in_with and not inside_with) or any(g.dominates(cn, rn) for cn in closes)
+                    r1.check(ok_close, f, rn.ast, "os.replace publishes the file before it is closed (its content can still sit in the write buffer: a kill right after the rename leaves an empty or partial file under the final name)", construct="replace before close")
     if n < 2:
         raise AnalysisError(f"only {n} write-open site(s) reachable from create/flatten; two writers were confirmed")
 
@@ -105,6 +107,15 @@ def run(report, p):
         "that the loader tolerates every intermediate state; only that no state with a half-written durable file follows from the code's write protocol",
         "a crash between a child's commit and its parent's leaves the child one generation ahead (loadable, the reference is simply missing)",
     ]
+
+
+def _inside(n, container):
+    x = n
+    while x is not None:
+        if x is container:
+            return True
+        x = parent(x)
+    return False
 
 
 def _handle_name(call):
